@@ -63,6 +63,8 @@ var versions = []version{
 		[]decl{{"Counter", "c", "Int", "", 2}, {"Gauge", "d", "Int", "k", 3}}, false},
 	{"kind-changed", func(n int) string { return "gauge c\ngauge d by k\n" + rules + fmt.Sprintf("# nonce %d\n", n) },
 		[]decl{{"Gauge", "c", "Int", "", 1}, {"Gauge", "d", "Int", "k", 2}}, false},
+	{"kind-changed-later-decl", func(n int) string { return "counter c\ntimer d by k\n" + rules + fmt.Sprintf("# nonce %d\n", n) },
+		[]decl{{"Counter", "c", "Int", "", 1}, {"Timer", "d", "Int", "k", 2}}, false},
 	{"type-changed", func(n int) string {
 		return "counter c\ngauge d by k\n" + strings.Replace(rules, "d[$1] = $2", "d[$1] = float($2)", 1) + fmt.Sprintf("# nonce %d\n", n)
 	}, []decl{{"Counter", "c", "Int", "", 1}, {"Gauge", "d", "Float", "k", 2}}, false},
@@ -229,7 +231,7 @@ func kept(old, new []decl) map[string]bool {
 func TestC14(t *testing.T) {
 	r := ev.Start(t, "C14", "exploration")
 	defer r.Finish()
-	r.Rule("histories over {load version v for v in (base, identical, comment appended, declaration moved, kind changed, type changed, keys changed, declaration removed, declaration added, syntax error, kind clash with a second program), feed lines, GC, unload} on a real runtime.Runtime + Store + Prometheus registry; all histories of length <=2 (quick) / <=3 (thorough) exhaustively plus random length-8 histories; after every step: identical reload changes nothing (snapshot, metric identity, VM id, load counter); kept declarations keep values and expiry; a failed load leaves the export unchanged and the old version still updates the export; the scrape never fails nor lists a series twice; values follow the model of the lines fed. Non-trivial: history with >=1 successful reload after data exists; distinct by history.")
+	r.Rule("histories over {load version v for v in (base, identical, comment appended, declaration moved, kind changed (first / a later declaration), type changed, keys changed, declaration removed, declaration added, syntax error, kind clash with a second program), feed lines, GC, unload} on a real runtime.Runtime + Store + Prometheus registry; all histories of length <=2 (quick) / <=3 (thorough) exhaustively plus random length-8 histories; after every step: identical reload changes nothing (snapshot, metric identity, VM id, load counter); kept declarations keep values and expiry; a failed load leaves the export unchanged and the old version still updates the export; the scrape never fails nor lists a series twice; values follow the model of the lines fed. Non-trivial: history with >=1 successful reload after data exists; distinct by history.")
 	r.Assume("for a declaration that was not kept (moved / retyped / re-keyed / kind changed) the statement fixes no value: the model adopts what is observed", "expvar load counters are read per unique program name")
 	lh := func(id uint64, name string, l *logline.LogLine, phase int) {
 		if phase == 0 && strings.HasPrefix(name, "c14_") {
@@ -296,6 +298,19 @@ func TestC14(t *testing.T) {
 			r.Sample(map[string]any{"history": hist})
 		}
 	}
+}
+
+// ownKindChange reports whether a version declares a name the program
+// currently exports with another kind (such a load may be refused).
+func ownKindChange(before []row, ds []decl) bool {
+	for _, d := range ds {
+		for _, r := range before {
+			if r.Metric == d.Name && r.Kind != d.Kind {
+				return true
+			}
+		}
+	}
+	return false
 }
 
 func cls(w string) string {
@@ -388,7 +403,7 @@ func runHistory(t *testing.T, r *ev.Run, hi int, hist []op) (string, int) {
 				if loadsOf(h.prog) != loadsBefore {
 					return "identical reload was counted as a load", step
 				}
-			case v.Fails || (v.Name == "kind-changed" && lerr != nil):
+			case v.Fails || (lerr != nil && ownKindChange(before, v.Decls)):
 				// (changing the kind of one's own metric may be refused at
 				// registration; the statement then treats it like any failed load)
 				if lerr == nil {
